@@ -19,7 +19,7 @@ def _enum_harness(spec: EnumSpec, pname, role, consts=""):
     conds = []
     for i, v in en:
         if fieldless:
-            conds.append("if d == (%s::%s as %s) { Some(%du32) }" % (spec.name, v.ident, R, i))
+            conds.append("if d == (%s::%s as %s) { Some(%du32) }" % (spec.ty().replace("<", "::<", 1), v.ident, R, i))
         else:
             conds.append("if d == %s { Some(%du32) }" % (int_lit(discs[i], R), i))
     if conds:
@@ -60,7 +60,7 @@ def _enum_harness(spec: EnumSpec, pname, role, consts=""):
     if fieldless and en:
         # round trip through the cast for a symbolic variant selector
         b = ["    let k = nd_u8();", "    vassume((k as usize) < %d);" % len(en)]
-        b.append("    let v = match k { " + " ".join("%d => %s::%s," % (j, spec.name, v.ident) for j, (i, v) in enumerate(en)) + " _ => unreachable!() };")
+        b.append("    let v = match k { " + " ".join("%d => %s::%s," % (j, spec.ty().replace("<", "::<", 1), v.ident) for j, (i, v) in enumerate(en)) + " _ => unreachable!() };")
         b.append('    vcover!(k == %d, "last enabled variant");' % (len(en) - 1))
         b.append("    let back = %s::from_repr(v.clone() as %s);" % (spec.ty().replace("<", "::<", 1), R))
         b.append('    assert!(back == Some(v), "from_repr(v as R) != Some(v)");')
@@ -109,6 +109,11 @@ def pivot():
     S.append(EnumSpec("ViaMacroNeg", [U("A", disc="-$base", disc_val=-5), U("B"), U("C", disc="$base * $base", disc_val=25), U("D", disc="$base as i8 as i32 + <$t>::MAX as i32", disc_val=260)],
                       derives=d, std_derives=std, repr="i32", macro_args=[("base", "expr", "2 + 3"), ("t", "ty", "u8")],
                       note="macro_rules! body: negated / squared $x:expr fragment and a $t:ty fragment inside discriminant expressions"))
+    S.append(EnumSpec("ConstNamed", [U("A", disc="3", disc_val=3), U("B", disc="A_DISCRIMINANT", disc_val=10), U("C"), U("D", disc="LIMIT_B", disc_val=40), U("E")],
+                      derives=d, std_derives=std, repr="u8",
+                      note="discriminants that name user constants, one of them called like the derive's internal per-variant constant (<Variant>_DISCRIMINANT)"))
+    S.append(EnumSpec("CgLevel", [U("Low"), U("Mid", disc="5", disc_val=5), U("H", disabled=True), U("High")], derives=d, std_derives=std, repr="i8",
+                      generics="<const BIAS: i8>", ty_args="<3>", note="field-less enum with a const-generic parameter: from_repr must stay callable in const context"))
     S.append(EnumSpec("ExprTy8", [U("Half", disc="!0 >> 1", disc_val=127), U("Next"), U("H", disabled=True), U("Q", disc="!0 / 4", disc_val=63), U("R")],
                       derives=d, std_derives=std, repr="u8", note="expressions whose value depends on being typed at the repr type (u8): !0 >> 1, !0 / 4"))
     S.append(EnumSpec("ExprTy16", [U("A", disc="!0 >> 4", disc_val=0x0fff), U("B"), U("C", disc="1 << 15", disc_val=32768), U("D")],
@@ -230,7 +235,7 @@ def e2(run, programs, tier, seed, known):
     with open(os.path.join(cdir, "Cargo.toml"), "w") as f:
         f.write('[package]\nname = "sv_c06_e2"\nversion = "0.0.0"\nedition = "2021"\n[dependencies]\nstrum = { path = "%s/strum", features = ["derive"] }\n[workspace]\n' % fw.REPO)
     shutil.copy(fw.lockfile(), os.path.join(cdir, "Cargo.lock"))
-    src = ["#![allow(dead_code, non_camel_case_types, unused)]", "pub const BASE_EXPR: u8 = 10;"]
+    src = ["#![allow(dead_code, non_camel_case_types, unused, non_upper_case_globals)]", "pub const BASE_EXPR: u8 = 10;", "pub const A_DISCRIMINANT: u8 = 10;", "pub const LIMIT_B: u8 = 40;"]
     for sp in specs:
         sp2 = copy.deepcopy(sp)
         sp2.std_derives = ["Debug"]
@@ -300,6 +305,8 @@ def build(tier, seed):
     programs = []
     for i, s in enumerate(specs):
         consts = "pub const BASE_EXPR: u8 = 10;\n" if s.name == "Expr" else ""
+        if s.name == "ConstNamed":
+            consts = "#[allow(non_upper_case_globals)]\npub const A_DISCRIMINANT: u8 = 10;\npub const LIMIT_B: u8 = 40;\n"
         programs.append(_enum_harness(s, "p%03d" % i, s.role, consts))
     return {
         "programs": programs,
